@@ -155,4 +155,12 @@ def generatePrefixed (C : Crypto) (kind : Kind) (globalSecret : Bytes) (entropy 
   | .error e => .error e
   | .ok (token, sig) => .ok (setPrefix token kind.part, sig)
 
+/-- `rfc8628.DefaultDeviceStrategy.GenerateUserCode`: a random sequence of `GetUserCodeLength` symbols (8 when
+    unset) and its HMAC (`GenerateHMACForString`: the first global secret, which must have the minimum length —
+    rotated secrets are not consulted).  `none` = the signing error (no code, no signature are returned with
+    it: repair affaba5). -/
+def generateUserCode (globalSecret : Bytes) (configuredLen : Nat) : Option Nat :=
+  if globalSecret.length < minimumSecretLength then none
+  else some (if configuredLen = 0 then 8 else configuredLen)
+
 end Fosite.Model.HMAC
